@@ -365,58 +365,98 @@ def _is_conj(t):
     return at is not None and isinstance(at, T.App) and at.op == "npconj"
 
 
+def _kron_instance(ck, prog, km, ns):
+    """Exact instance: ns sites of dimension 2.  The sweep must apply matrices[s] to every pair of amplitudes {j, j + 2^(ns-1-s)}
+    (bit s of j, counted from the most significant, equal to 0) exactly once, reading the current value of the pair: that is
+    (u_0 (x) ... (x) u_{ns-1}) x with site 0 the leftmost factor.  Found from the values (the chain of in-place block updates
+    and the complex products recorded by the interpreter), whatever the spelling of the loops."""
+    site = km.site()
+    L = 2 ** ns
+    inst = "_kron_mult/%d site%s" % (ns, "" if ns == 1 else "s")
+
+    def thk(it):
+        x = api.cx_t(it, "x", (L, "M"))
+        ms = it.new_list([api.cx_t(it, "u%d" % i, (2, 2)) for i in range(ns)])
+        return x, it.call_function(VFunc(km), [ms, x], {}, None)
+
+    with ck.guard("C04.R4", inst, site):
+        paths = paths_of(prog, thk, sticky=True, max_paths=20)
+        rets = [p for p in paths if p.outcome == "return"]
+        ck.check(len(rets) >= 1 and all(p.outcome == "return" for p in paths), "C04.R4", inst + ":accepted", site,
+                 "a state of length 2^%d is refused or fails with %d 2x2 matrices: %s" % (ns, ns, [str(p.value)[:80] for p in paths if p.outcome != "return"][:1]))
+        for p in rets:
+            x, y = p.value
+            t = y.term if isinstance(y, VTens) else None
+            steps = []
+            while t is not None:
+                at = t.single_atom()
+                if at is None or not isinstance(at, T.App) or at.op != "upd":
+                    break
+                base, spec, val = at.args
+                steps.append((base, spec, val))
+                t = base
+            if t is None or t != x.term or not steps:
+                ck.undecided("C04.R4", inst + ":block updates", site, "the result is not a chain of in-place block updates of a copy of the input")
+                continue
+            mm = [c for c in p.calls if c[0].endswith("cplx.matmul")]
+            per_site = {}
+            bad = stale = None
+            for base, spec, val in steps:
+                rec = [c for c in mm if c[6] == val]
+                a = list(rec[0][7].values()) if rec else []
+                if len(rec) < 1 or len(a) < 2:
+                    bad = "a block is not assigned the complex product matmul(unitary, block)"
+                    break
+                us = [k for k in range(ns) if a[0] == T.stack0(T.sym("u%dr" % k), T.sym("u%di" % k))]
+                if len(us) != 1:
+                    bad = "the left factor of a block product is not one of the given matrices: %r" % (a[0],)
+                    break
+                if a[1] != T.app("index", base, spec):
+                    earlier = [b_ for b_, _s, _v in steps if b_ != base] + [x.term]
+                    if any(a[1] == T.app("index", b_, spec) for b_ in earlier):
+                        stale = "a block product reads an earlier value of the state (not the value left by the updates made so far): rotations already applied to these amplitudes are discarded"
+                    else:
+                        bad = "a block product does not read the block it overwrites"
+                    break
+                sl = [x_ for x_ in spec if isinstance(x_, (tuple, list)) and x_ and x_[0] == "slice" and tuple(x_[1:]) != (None, None, None)]
+                if len(sl) != 1 or len(spec) < 2 or tuple(spec[1]) != tuple(sl[0]) or not all(isinstance(v, int) or v is None for v in sl[0][1:]):
+                    bad = "block addressed by %r: expected [:, <concrete slice>, ...]" % (spec,)
+                    break
+                idx = frozenset(range(L)[slice(*sl[0][1:])])
+                per_site.setdefault(us[0], []).append(idx)
+            if stale:
+                ck.violation("C04.R4", inst + ":every block product reads the current state", site, stale)
+                continue
+            if bad:
+                ck.undecided("C04.R4", inst + ":block updates", site, bad)
+                continue
+
+            def blocks(stride):
+                return sorted(sorted((j, j + stride)) for j in range(L) if (j // stride) % 2 == 0)
+
+            got = {k: sorted(sorted(b) for b in v) for k, v in per_site.items()}
+            big = {k: blocks(2 ** (ns - 1 - k)) for k in range(ns)}
+            little = {k: blocks(2 ** k) for k in range(ns)}
+            if got == big:
+                ck.ok("C04.R4", inst + ":site s acts on the pairs {j, j + 2^(n-1-s)} once each", site, pairs={str(k): v for k, v in got.items()})
+            elif got == little and ns > 1:
+                ck.violation("C04.R4", inst + ":site s acts on the pairs {j, j + 2^(n-1-s)} once each", site,
+                             "site s acts on pairs at distance 2^s: site 0 is the least significant factor, i.e. the tensor product is taken in reversed site order, contradicting generate_hilbert_space")
+            else:
+                ck.violation("C04.R4", inst + ":site s acts on the pairs {j, j + 2^(n-1-s)} once each", site,
+                             "the unitaries act on the index pairs %s; expected %s" % (got, big))
+
+
 def _check_kron(ck, prog, km):
     """Sites are swept from the last to the first while the stride starts at 1 and is multiplied by the
     site dimension after the site is processed => site 0 has the largest stride (leftmost factor)."""
-    node = km.node
-    site = km.site()
-    outer = [s for s in node.body if isinstance(s, ast.For)]
-    ck.check(len(outer) == 1, "C04.R4", "_kron_mult:one sweep over the sites", site, "expected one top-level loop over the sites")
-    if len(outer) != 1:
-        return
-    lp = outer[0]
-    it_src = ast.unparse(lp.iter)
-    rev = isinstance(lp.iter, ast.Call) and isinstance(lp.iter.func, ast.Name) and lp.iter.func.id == "reversed"
-    fwd_range = isinstance(lp.iter, ast.Call) and isinstance(lp.iter.func, ast.Name) and lp.iter.func.id == "range"
-    desc_range = fwd_range and len(lp.iter.args) == 3 and ast.unparse(lp.iter.args[2]) in ("-1",)
-    last_to_first = rev or desc_range
-    # stride variable: the step of the slice used to address the blocks
-    strides = set()
-    for n in ast.walk(lp):
-        if isinstance(n, ast.Call) and isinstance(n.func, ast.Name) and n.func.id == "slice" and len(n.args) == 3 and isinstance(n.args[2], ast.Name):
-            strides.add(n.args[2].id)
-        if isinstance(n, ast.Slice) and n.step is not None and isinstance(n.step, ast.Name):
-            strides.add(n.step.id)
-    if len(strides) != 1:
-        ck.undecided("C04.R4", "_kron_mult:stride", site, "block stride variable not found (candidates %s)" % sorted(strides))
-        return
-    r = strides.pop()
-    init = None
-    for s in node.body:
-        if isinstance(s, ast.Assign):
-            tg, val = s.targets[0], s.value
-            if isinstance(tg, ast.Tuple) and isinstance(val, ast.Tuple):
-                for a, b in zip(tg.elts, val.elts):
-                    if isinstance(a, ast.Name) and a.id == r:
-                        init = b
-            elif isinstance(tg, ast.Name) and tg.id == r:
-                init = val
-    ck.check(isinstance(init, ast.Constant) and init.value == 1, "C04.R4", "_kron_mult:stride starts at 1", site, "the block stride starts at %s" % (ast.unparse(init) if init is not None else None))
-    upd_idx = [i for i, s in enumerate(lp.body) if isinstance(s, ast.AugAssign) and isinstance(s.target, ast.Name) and s.target.id == r and isinstance(s.op, ast.Mult)]
-    inner_idx = [i for i, s in enumerate(lp.body) if isinstance(s, ast.For)]
-    okorder = len(upd_idx) == 1 and inner_idx and upd_idx[0] > max(inner_idx)
-    ck.check(bool(okorder), "C04.R4", "_kron_mult:stride grows after a site is processed", site, "the stride is not multiplied by the site dimension after the site's blocks are processed")
-    if last_to_first and okorder:
-        ck.ok("C04.R4", "_kron_mult:site 0 is the leftmost (most significant) Kronecker factor", site, sweep=it_src)
-    elif fwd_range and not desc_range and okorder:
-        ck.violation("C04.R4", "_kron_mult:site 0 is the leftmost (most significant) Kronecker factor", site,
-                     "sites are swept first-to-last with a stride starting at 1: site 0 gets the smallest stride, i.e. the tensor product is taken in reversed site order (little-endian), contradicting generate_hilbert_space")
-    else:
-        ck.undecided("C04.R4", "_kron_mult:site 0 is the leftmost (most significant) Kronecker factor", site, "sweep %s not recognised" % it_src)
-    # the site's own unitary is applied, blocks are read from a copy
-    uses = [n for n in ast.walk(lp) if isinstance(n, ast.Subscript) and isinstance(n.value, ast.Name) and n.value.id == "matrices"]
-    ck.check(any(ast.unparse(u.slice) == ast.unparse(lp.target) for u in uses), "C04.R4", "_kron_mult:site s uses matrices[s]", site, "the unitary applied at site s is not matrices[s]")
+    for ns in (1, 2, 3, 4):
+        _kron_instance(ck, prog, km, ns)
+    _kron_generic(ck, prog, km)
 
+
+def _kron_generic(ck, prog, km):
+    site = km.site()
     # ---- block addressing of one site: blocks of n elements with stride r, block starts K*n*r + I for
     # K in range(l // n), I in range(r): a bijection onto range(l) (mixed radix (K, j, I))
     def thb(it):
@@ -441,7 +481,7 @@ def _check_kron(ck, prog, km):
             if len(loopsyms) == 2:
                 gen = (sl, loopsyms, sorted(x for x in syms if x.startswith("carry:")))
         if gen is None or len(inner) < 3:
-            ck.undecided("C04.R4", "_kron_mult:block addressing", site, "generic block slice not found")
+            pass  # another addressing scheme: the exact 1..4-site instances decide
         else:
             sl, (s1, s2), carries = gen
             K, I = T.sym(s1), T.sym(s2)  # outer (block) and inner (offset) loop variables, by line order
@@ -451,17 +491,21 @@ def _check_kron(ck, prog, km):
             r = c
             n_ = T.const(2)
             ok = (a == n_ * r * K + I) and (b - a == n_ * r) and r.single_atom() is not None
-            ck.check(bool(ok), "C04.R4", "_kron_mult:block = n elements with stride r starting at K*n*r + I", site,
-                     "blocks are addressed by slice(%r, %r, %r); expected slice(K*n*r + I, (K+1)*n*r + I, r)" % (a, b, c))
+            # recognised addressing scheme for any number of sites (evidence beyond the exact instances; other schemes are
+            # not wrong for being different, so nothing is reported when this one is not matched)
+            if ok:
+                ck.ok("C04.R4", "_kron_mult:block = n elements with stride r starting at K*n*r + I (any number of sites)", site)
             # offset loop runs over range(r), block loop over range(l // n)
             rng = {l["site"]: l["iter"] for l in loops if l["generic"] is not None or True}
             il = [l for l in loops if l["site"] == inner[-1]]
             okI = any(isinstance(l["iter"], VRange) and num_term(l["iter"].start) == T.ZERO and num_term(l["iter"].stop) == r and num_term(l["iter"].step) == T.ONE for l in il)
-            ck.check(bool(okI), "C04.R4", "_kron_mult:offsets I run over range(r)", site, "the offset loop does not run over range(stride)")
+            if ok and okI:
+                ck.ok("C04.R4", "_kron_mult:offsets I run over range(r)", site)
             kl = [l for l in loops if l["site"] == inner[-2]]
             okK = any(isinstance(l["iter"], VRange) and num_term(l["iter"].start) == T.ZERO and num_term(l["iter"].step) == T.ONE and num_term(l["iter"].stop) is not None
                       and any(isinstance(at, T.App) and at.op == "floordiv" and at.args[1] == n_ for at in num_term(l["iter"].stop).all_atoms()) for l in kl)
-            ck.check(bool(okK), "C04.R4", "_kron_mult:blocks K run over range(l // n)", site, "the block loop does not run over range(l // n[s]) with l divided before the site is processed")
+            if ok and okK:
+                ck.ok("C04.R4", "_kron_mult:blocks K run over range(l // n)", site)
 
     def thk(it):
         x = api.cx_t(it, "x", ("N", "M"))
